@@ -74,17 +74,19 @@ def gen_dump(rng):
         if k < len(tids) and rng.random() < 0.4:
             # sampled, its process renamed (same pid: an exec, or a new-thread record carrying another name), sampled again
             prog += stack_sample(tid, map_pids[k], False)
-            prog += rng.choice((H.exec_pair(map_pids[k], rng.choice((b'execd', b'newimage')), rng.choice((H.NONE, H.ALL))),
-                                H.newthread_pair(tid, map_pids[k], b'renamed', rng.choice((H.NONE, H.ALL)))))
+            # (a kernel with 4-byte words lays a name out with the upper half of every argument word zero)
+            prog += rng.choice((H.exec_pair(map_pids[k], rng.choice((b'execd', b'newimage')), rng.choice((H.NONE, H.ALL)), word=rng.choice((8, 8, 4))),
+                                H.newthread_pair(tid, map_pids[k], b'renamed', rng.choice((H.NONE, H.ALL)), word=rng.choice((8, 8, 4)))))
             prog += stack_sample(tid, map_pids[k], rng.random() < 0.3)
         for _ in range(rng.randrange(2, 7)):
             c = rng.random()
             if c < 0.2:      # a new-thread pair that (re-)maps a thread of this stream
                 target = rng.choice(tids + [undeclared, 555])
                 prog += H.newthread_pair(target, rng.choice((100, 200, 300, 777, 0)), rng.choice(LONG_NAMES + tuple(t[:16] or b'x' for t in domain.TEXTS[:5])),
-                                         rng.choice((H.NONE, H.ALL)))
+                                         rng.choice((H.NONE, H.ALL)), word=rng.choice((8, 8, 4)))
             elif c < 0.3:
-                prog += H.exec_pair(rng.choice((100, 200, 777, 0)), rng.choice((b'execd', b'newimage') + LONG_NAMES), rng.choice((H.NONE, H.ALL)))
+                prog += H.exec_pair(rng.choice((100, 200, 777, 0)), rng.choice((b'execd', b'newimage') + LONG_NAMES), rng.choice((H.NONE, H.ALL)),
+                                    word=rng.choice((8, 8, 4)))
             elif c < 0.4:
                 prog += [H.A('TRACE_DATA_THREAD_TERMINATE_PID', H.NONE, (rng.choice((100, 200, 888, 0)), 5, 0, 0))]
             elif c < 0.5:
